@@ -4,6 +4,7 @@ import (
 	"fmt"
 	"go/token"
 	"go/types"
+	"strings"
 
 	"golang.org/x/tools/go/ssa"
 
@@ -420,6 +421,118 @@ func c19(p *core.Program, r *core.Report, only string) {
 			r.Fail(R7, "isAnnounced clear sites", "", "the announcement-active flag is never cleared")
 		}
 	}
+	// ---- R8: once avahi is in use it reconnects; every resolved add reaches the callback
+	const R8 = "C19.R8 reconnects-and-reports-again"
+	r.Rule(R8, "every successful return of the provider's start function has set autoReconnect (by the parameter being true or by storing true) - a provider that was started with autoReconnect=false, the default selection path, must still resume after a daemon restart; and the add path of the listener calls the resolve callback on every path that does not return an error - a 'seen before, skip' memo survives the reconnect (a restarted daemon sends no removes) and drops every re-resolved service")
+	if fAuto := p.Field("mdns", "AvahiProvider", "autoReconnect"); fAuto == nil {
+		r.Unresolved(R8, "mdns.AvahiProvider.autoReconnect")
+	} else {
+		for _, fn := range fns {
+			fn := fn
+			if core.NamedOf(recvType(fn)) != prov || fn.Signature.Results().Len() != 1 {
+				continue
+			}
+			if b, ok := fn.Signature.Results().At(0).Type().Underlying().(*types.Basic); !ok || b.Kind() != types.Bool {
+				continue
+			}
+			// the start function: stores its bool parameter into autoReconnect
+			var param ssa.Value
+			core.EachInstr(fn, func(in ssa.Instruction) {
+				if f, _, v := core.StoredField(in); f == fAuto {
+					if pa, ok := core.Canon(v).(*ssa.Parameter); ok {
+						param = pa
+					}
+					if bo, ok := v.(*ssa.BinOp); ok {
+						if pa, ok := core.Canon(bo.X).(*ssa.Parameter); ok {
+							param = pa
+						}
+					}
+					if phi, ok := v.(*ssa.Phi); ok {
+						for _, e := range phi.Edges {
+							if pa, ok := core.Canon(e).(*ssa.Parameter); ok {
+								param = pa
+							}
+						}
+					}
+				}
+			})
+			if param == nil {
+				for _, pa := range fn.Params {
+					if b, ok := pa.Type().Underlying().(*types.Basic); ok && b.Kind() == types.Bool && strings.Contains(strings.ToLower(pa.Name()), "reconnect") {
+						param = pa
+					}
+				}
+			}
+			if param == nil {
+				continue
+			}
+			setsTrue := func(in ssa.Instruction) bool {
+				f, _, v := core.StoredField(in)
+				return f == fAuto && isBoolConst(v, true)
+			}
+			paramTrue := func(b *ssa.BasicBlock, idx int) bool {
+				i := core.BlockIf(b)
+				if i == nil {
+					return false
+				}
+				v, truth := core.Truth(i.Cond, idx)
+				return core.Canon(v) == param && truth
+			}
+			key := "successful " + p.FnName(fn) + " leaves autoReconnect on"
+			bad := core.PathSearch(fn, nil, func(in ssa.Instruction) bool {
+				ret, ok := in.(*ssa.Return)
+				return ok && len(ret.Results) == 1 && isBoolConst(core.ResultOf(ret, 0), true)
+			}, setsTrue, paramTrue)
+			if bad != nil {
+				r.Fail(R8, key, p.Pos(bad.Pos()), "a successful start can return with autoReconnect still false (started with autoReconnect=false): the disconnect callback then ignores a daemon restart - browsing never resumes and an active announcement is never made again")
+			} else {
+				r.OK(R8, key, p.Pos(fn.Pos()), "true parameter or an explicit store of true on every successful path")
+			}
+		}
+	}
+	// the add path reaches the resolve callback
+	for _, fn := range fns {
+		fn := fn
+		if core.NamedOf(recvType(fn)) != prov || fn.Signature.Results().Len() != 1 || types.TypeString(fn.Signature.Results().At(0).Type(), nil) != "error" {
+			continue
+		}
+		var cbParam ssa.Value
+		for _, pa := range fn.Params {
+			if core.TypeIs(pa.Type(), apiPath, "MdnsResolveCB") {
+				cbParam = pa
+			}
+		}
+		if cbParam == nil {
+			continue
+		}
+		// only the function that itself stores into the per-service element table is the add path
+		stores := false
+		core.EachInstr(fn, func(in ssa.Instruction) {
+			if mu, ok := in.(*ssa.MapUpdate); ok {
+				if f, b := core.LoadedField(mu.Map); f != nil && core.NamedOf(b.Type()) == prov {
+					stores = true
+				}
+			}
+		})
+		if !stores {
+			continue
+		}
+		callsCB := func(in ssa.Instruction) bool {
+			c := core.Common(in)
+			return c != nil && !c.IsInvoke() && c.StaticCallee() == nil && core.Canon(c.Value) == cbParam
+		}
+		key := "add path " + p.FnName(fn) + " reports every resolved service"
+		bad := core.PathSearch(fn, nil, func(in ssa.Instruction) bool {
+			ret, ok := in.(*ssa.Return)
+			return ok && len(ret.Results) == 1 && core.IsNilConst(core.ResultOf(ret, 0))
+		}, callsCB, nil)
+		if bad != nil {
+			r.Fail(R8, key, p.Pos(bad.Pos()), "the add path can return success without calling the resolve callback (a 'same as stored, skip' shortcut): after a reconnect the stored table is still filled, so every re-resolved service - also one whose address changed - is silently dropped")
+		} else {
+			r.OK(R8, key, p.Pos(fn.Pos()), "every successful return is preceded by the callback")
+		}
+	}
+	r.Floor(R8, 2)
 	// ---- R4
 	nlisten := 0
 	for _, fn := range fns {
